@@ -229,3 +229,71 @@ func VHSetStatement() {
 	vAssert(ok2 && vValueEq(got2, want2), "a second assignment starts from what the storer holds")
 	vReach("second-assignment")
 }
+
+// VHStorerOps (C03, C07): the default in-memory storer against a model, over every sequence of OPS operations --
+// writes of each type (names of their own per type), Clear, and reads through GetValue, Contains and GetValues --
+// with all three read paths checked after every operation (so that something one operation leaves behind, such as a
+// memoised map, shows at the next) and the map GetValues returned changed by the caller without effect on the store.
+func VHStorerOps() {
+	st := variable.NewInMemoryStorer()
+	names := []string{"n", "m", "b", "s"}
+	present := []bool{false, false, false, false}
+	var num [2]float64
+	var boo bool
+	var str string
+	ops := vParam("OPS", 3)
+	for i := 0; i < ops; i++ {
+		tag := "op" + vItoa(i)
+		switch vChoose(tag, 6) {
+		case 0:
+			k := vChoose(tag+".which", 2)
+			x := vFloat(tag + ".x")
+			st.SetNumberValue(names[k], x)
+			present[k], num[k] = true, x
+		case 1:
+			v := vBool(tag + ".v")
+			st.SetBooleanValue("b", v)
+			present[2], boo = true, v
+		case 2:
+			v := vString(tag+".v", 1)
+			st.SetStringValue("s", v)
+			present[3], str = true, v
+		case 3:
+			st.Clear()
+			present = []bool{false, false, false, false}
+			vReach("cleared")
+		case 4:
+			// the caller changes the map it was given
+			m := st.GetValues()
+			m["zz"] = *variable.NewNumber(1)
+			delete(m, "n")
+		default:
+			// no operation
+		}
+		all := st.GetValues()
+		count := 0
+		for k, name := range names {
+			v, ok := st.GetValue(name)
+			vAssert(ok == present[k] && st.Contains(name) == present[k], "a name is stored exactly when it was written since the last Clear")
+			mv, inAll := all[name]
+			vAssert(inAll == present[k], "GetValues lists exactly the stored names")
+			if !present[k] {
+				continue
+			}
+			count++
+			if !ok || !inAll {
+				continue
+			}
+			switch k {
+			case 0, 1:
+				vAssert(vKind(v) == 0 && vSameFloat(*v.Number, num[k]) && mv.Number != nil && vSameFloat(*mv.Number, num[k]) && mv.Boolean == nil && mv.String == nil, "a number reads back as written, through GetValue and GetValues")
+			case 2:
+				vAssert(vKind(v) == 1 && *v.Boolean == boo && mv.Boolean != nil && *mv.Boolean == boo && mv.Number == nil && mv.String == nil, "a boolean reads back as written")
+			default:
+				vAssert(vKind(v) == 2 && *v.String == str && mv.String != nil && *mv.String == str && mv.Number == nil && mv.Boolean == nil, "a string reads back as written")
+			}
+		}
+		vAssert(len(all) == count, "GetValues holds nothing else")
+	}
+	vReach("ops")
+}
